@@ -486,3 +486,99 @@ func VH19h_concurrent_resize() {
 	sock.Close()
 	verif.Quiesce()
 }
+
+// VH11f_pipe_close_vs_arrival: the application closes a connection (Pipe.Close,
+// from a goroutine of its own) at the very moment a message arrives on it,
+// on a socket that has a second peer whose writes are slow. Every pattern,
+// every schedule in which one goroutine stalls at one synchronisation point.
+// Whatever the application then receives is the arrival, intact, and is the
+// application's alone: it overwrites every byte of it before the slow write
+// to the other peer proceeds, and what a forwarding pattern (STAR, raw STAR)
+// then puts on the other connection is still the arrival with its hop count
+// raised by one. Nothing goes back to the origin, no call blocks or panics,
+// no conflicting unsynchronised accesses.
+func VH11f_pipe_close_vs_arrival() {
+	proto := vp.Names[verif.Choice("proto", len(vp.Names))]
+	lab := "C11/pipe-close-vs-arrival/" + proto
+	sock := vp.New(proto)
+	var mps []mangos.Pipe
+	sock.SetPipeEventHook(func(ev mangos.PipeEvent, p mangos.Pipe) {
+		if ev == mangos.PipeEventAttached {
+			mps = append(mps, p)
+		}
+	})
+	side := vt.Listen(sock, "a")
+	a := side.Peer("pa")
+	b := side.Peer("pb")
+	onePeer := proto == "pair" || proto == "xpair" || proto == "pair1" || proto == "xpair1" // the second is refused
+	if onePeer {
+		verif.Assert(len(mps) == 1 && b.Closed, lab+"/pair-second-peer-refused")
+	} else {
+		verif.Assert(len(mps) == 2, lab+"/two-peers-attached")
+	}
+	if len(mps) == 0 {
+		return
+	}
+	if proto == "sub" || proto == "xsub" {
+		sock.SetOption(mangos.OptionSubscribe, []byte{})
+	}
+	b.SendMode = vt.SendBlock
+	wire := wireFor(proto)
+	pay := verif.Byte("payload")
+	wire[len(wire)-1] = pay
+	hdrLen := len(wire) - 1
+	sock.SetOption(mangos.OptionRecvDeadline, time.Second)
+	a.Deliver(append([]byte{}, wire...))
+	var cerr error
+	gc := verif.Go("close-pipe", func() { cerr = mps[0].Close() })
+	verif.Quiesce()
+	verif.Assert(gc.Done(), lab+"/pipe-close-blocked")
+	verif.Assert(cerr == nil || cerr == mangos.ErrClosed, lab+"/pipe-close-result")
+	verif.Assert(a.Closed, lab+"/closed-pipe-left-open")
+	var m *mangos.Message
+	var rerr error
+	gr := verif.Go("recv", func() { m, rerr = sock.RecvMsg() })
+	verif.Quiesce()
+	if !gr.Done() {
+		verif.RunClockTo(verif.Now() + 2*time.Second)
+		verif.Quiesce()
+	}
+	verif.Assert(gr.Done(), lab+"/recv-blocked-past-its-deadline")
+	if !gr.Done() {
+		return
+	}
+	verif.Assert(contractErr(rerr), lab+"/recv-result-outside-contract")
+	if rerr == nil {
+		verif.Assert(len(m.Body) == 1 && m.Body[0] == pay, lab+"/received-message-is-not-the-arrival")
+		// the application's own now: it may do with it what it likes
+		for k := range m.Body {
+			m.Body[k] = 0xee
+		}
+		for k := range m.Header {
+			m.Header[k] = 0xee
+		}
+		m.Free()
+		verif.Reach("arrival-received")
+	}
+	// now the slow write to the other peer proceeds
+	b.Release()
+	verif.Quiesce()
+	verif.Assert(len(a.Sent) == 0, lab+"/sent-back-to-origin")
+	forwards := proto == "star" || proto == "xstar"
+	if !forwards {
+		verif.Assert(len(b.Sent) == 0, lab+"/non-forwarding-pattern-forwarded")
+	} else {
+		verif.Assert(len(b.Sent) <= 1, lab+"/forwarded-more-than-once")
+		if len(b.Sent) == 1 {
+			x := b.Sent[0].Bytes()
+			verif.Assert(len(x) == hdrLen+1 && x[len(x)-1] == pay, lab+"/forwarded-copy-changed-after-the-application-got-its-own")
+			if len(x) == 5 {
+				verif.Assert(x[0] == 0 && x[1] == 0 && x[2] == 0 && x[3] == wire[3]+1, lab+"/forwarded-copy-hop-count-is-not-arrival-plus-one")
+			}
+			verif.Reach("forwarded")
+		}
+	}
+	verif.Reach("ran")
+	sock.Close()
+	verif.Quiesce()
+}
